@@ -23,8 +23,8 @@ VARIABLES ctxs, hist
 NA == <<97>>
 NB == <<98>>
 NF == <<102>>
-\* "small": one name, two slots; "names2": two names, one slot (no clone); "full": two names, two slots (simulation only)
-Names == IF Size = "small" THEN {NA} ELSE {NA, NB}
+\* "small": one name, two slots; "names2": two names, one slot (no clone); "zeros": one name, one slot, the zero values; "full": two names, two slots (simulation only)
+Names == IF Size \in {"small", "zeros"} THEN {NA} ELSE {NA, NB}
 FuncNames == IF Size = "full" THEN {NF, NA} ELSE IF Size = "names2" THEN {NA} ELSE {NF}   \* a function may share a variable's name
 
 \* values with a source form: [v |-> value, t |-> tokens]
@@ -41,7 +41,16 @@ EmptyV == [v |-> VEmpty, t |-> <<TOp("("), TOp(")")>>]
 ValsSmall == {Lit(VNat(1), <<49>>), Lit(VNat(2), <<50>>), Lit(VFloat(F15), <<49, 46, 53>>), Lit(VStr(SS), QuoteText(SS)),
               Lit(VBool(TRUE), TrueText), Tup2, Tup3, EmptyV}
 ValsFull == ValsSmall \cup {Lit(VFloat(F25), <<50, 46, 53>>), Lit(VStr(ST), QuoteText(ST)), Lit(VBool(FALSE), FalseText)}
-Vals == IF Size = "full" THEN ValsFull ELSE ValsSmall
+\* "zeros": values that are equal under == but distinguishable (the sign of zero, alone and inside a tuple): an assignment
+\* must store the NEW value even when it compares equal to the old one
+FZ == <<0, 0, 0, 0>>
+FNZ == <<32768, 0, 0, 0>>
+ZeroLit == TLit(VFloat(FZ), <<48, 46, 48>>)
+ValsZeros == {Lit(VFloat(FZ), <<48, 46, 48>>), [v |-> VFloat(FNZ), t |-> <<TOp("-"), ZeroLit>>],
+              [v |-> VTuple(<<VNat(1), VFloat(FZ)>>), t |-> <<TOp("("), TLit(VNat(1), <<49>>), TOp(","), ZeroLit, TOp(")")>>],
+              [v |-> VTuple(<<VNat(1), VFloat(FNZ)>>), t |-> <<TOp("("), TLit(VNat(1), <<49>>), TOp(","), TOp("-"), ZeroLit, TOp(")")>>],
+              Lit(VNat(1), <<49>>)}
+Vals == IF Size = "full" THEN ValsFull ELSE IF Size = "zeros" THEN ValsZeros ELSE ValsSmall
 Behs == IF Size = "full" THEN {BehId, BehConst(VNat(1))} ELSE {BehId}
 
 Absent == [kind |-> "Absent", vars |-> EmptyMap, funcs |-> EmptyMap, nb |-> FALSE]
@@ -83,7 +92,7 @@ Calls(s) ==
                                 !.mode = "imm"]}                                     \* max(1, 2): the builtin switch
   \cup {[Call("get_value", s) EXCEPT !.n = n] : n \in Names}
   \cup {Call("clear_variables", s), Call("clear_functions", s), Call("clear", s), Call("serde", s)}
-  \cup (IF Size = "names2" THEN {} ELSE {Call("clone", s)})
+  \cup (IF Size \in {"names2", "zeros"} THEN {} ELSE {Call("clone", s)})
   \cup {[Call("set_function", s) EXCEPT !.n = n, !.b = b] : n \in FuncNames, b \in Behs}
   \cup {[Call("set_builtins", s) EXCEPT !.d = d] : d \in BOOLEAN}
 
@@ -119,7 +128,7 @@ Next == SetValueStep \/ EvalStep \/ GetValueStep \/ ClearVariablesStep \/ ClearF
 View == ctxs
 \* op-assignments compute new values (a += 1 forever); histories are explored only while every bound value stays in
 \* the finite value domain (the transition that leaves it is still evaluated, emitted and replayed)
-DomainValues == {val.v : val \in ValsFull}
+DomainValues == {val.v : val \in ValsFull \cup ValsZeros}
 InDomain == \A s \in Slots : \A n \in DOMAIN ctxs[s].vars : ctxs[s].vars[n] \in DomainValues
 
 (***************************************************************************)
